@@ -2,9 +2,9 @@
 //! point table are the harness's own `src/props/c11.rs` (module `dec`).
 //!
 //! Oracle inside the target: a panic anywhere in decoding or in the stateless
-//! post-decode checks aborts (= libFuzzer crash), except at the allowlisted
-//! locations of known findings (which are, in addition, excluded by
-//! construction exactly as in the quick tier); an unbounded number of primitive
+//! post-decode checks aborts (= libFuzzer crash), except at allowlisted
+//! locations of open known findings (none at present; open findings are
+//! excluded by construction exactly as in the quick tier); an unbounded number of primitive
 //! reads or a spinning codec aborts; over-allocation and hangs are libFuzzer's
 //! `-malloc_limit_mb` / `-rss_limit_mb` / `-timeout`.
 #![allow(unexpected_cfgs)]
@@ -16,14 +16,11 @@ use c11::dec::*;
 use std::cell::RefCell;
 use std::sync::Once;
 
-/// panic locations of known findings: tolerated so that a campaign does not
-/// rediscover one crash forever (file suffix, line)
-const ALLOW: &[(&str, u32)] = &[
-	("core/src/core/merkle_proof.rs", 87),
-	("core/src/core/pmmr/segment.rs", 456),
-	("core/src/core/pmmr/segment.rs", 512),
-	("util/src/hex.rs", 50),
-];
+/// panic locations of OPEN known findings: tolerated so that a campaign does
+/// not rediscover one crash forever (file suffix, line). Empty: the open C11
+/// findings are over-allocations (excluded by construction), not panics, and
+/// the repaired ones must crash a campaign if they come back.
+const ALLOW: &[(&str, u32)] = &[];
 
 thread_local! {
 	static LAST: RefCell<Option<(String, u32)>> = RefCell::new(None);
